@@ -318,7 +318,7 @@ func TestC15(t *testing.T) {
 	evid.Main(t, "C15", func(rec *evid.Rec) {
 		rec.Rule("model-based sequences (<=250 ops) of store / probe / clear / resize-then-clear / resize-without-clear / new-search (8 bit generation wraps) on tables of 1, 2, 3, 32, 1024 and 32768 buckets; keys from a pool built to collide: 8 low words x 9 signatures (incl. 0, 1, 0x7fff, 0x8000, 0xffff) x 4 middle words, so same-bucket/different-signature, same-signature/different-bucket and indistinguishable aliases all occur; depth 0..63, ply 0..63, three bound types, null and non-null moves, values over the whole range with weight on 0, the band just inside +-(Inf-MaxPlies) and the mate bands (the two exact boundary values left out). Model: map (bucket index via hook, signature) -> last accepted store with keep-deeper refusal and kept move; after every store every modelled slot of the bucket is probed: hits equal the model (mate values re-based), at most one other slot vanished, the stored slot hits; probes of unmodelled non-zero signatures must miss. Zero signatures: only 'immediate probe hits and reflects the store (or the deeper same-search entry)' and 'hits return something stored under a zero signature or the empty entry'. After resize without clear nothing is judged but panics. Lane matcher checked directly against a four-lane loop. Non-trivial = sequence with an eviction, a keep-deeper refusal, a kept move or a re-based mate value; distinct by sequence")
 		rec.Assume("hooks transp.VerifBucketIx / VerifBuckets / VerifMatch64 (build tag verif) only read; victim choice is left free as in the property")
-		rec.Rapid(t, "sequence", evid.Pick(15000, 400000), func(t *rapid.T) {
+		rec.Rapid(t, "sequence", evid.Pick(80000, 1500000), func(t *rapid.T) {
 			c := Case{Size: sizes[gen.Draw(t, 0, len(sizes)-1, "size")]}
 			n := gen.Draw(t, 1, 250, "ops")
 			var pool []uint64
@@ -360,7 +360,7 @@ func TestC15(t *testing.T) {
 				t.Fatalf("%v", err)
 			}
 		})
-		rec.Rapid(t, "match64", evid.Pick(200000, 4000000), func(t *rapid.T) {
+		rec.Rapid(t, "match64", evid.Pick(1000000, 20000000), func(t *rapid.T) {
 			var w uint64
 			vals := []uint16{0, 1, 0x7fff, 0x8000, 0xffff, 0x8001, 0x0100, 0x00ff}
 			pick := func(l string) uint16 {
